@@ -118,7 +118,8 @@ representative peer matches a rule selector iff the normalised requirement strin
 def reqString (r : Req) : String :=
   let vs := r.vals.mergeSort (· ≤ ·)
   match r.op with
-  | .In => if vs.length == 1 then r.key ++ "=" ++ vs.head! else r.key ++ " in (" ++ ",".intercalate vs ++ ")"
+  -- `len(req.Values()) == 1`: `Values()` is a *set* of strings, so `In (x, x)` is one value and is rewritten to `k=x`
+  | .In => if vs.eraseDups.length == 1 then r.key ++ "=" ++ vs.head! else r.key ++ " in (" ++ ",".intercalate vs ++ ")"
   | .NotIn => r.key ++ " notin (" ++ ",".intercalate vs ++ ")"
   | .Exists => r.key
   | .DoesNotExist => "!" ++ r.key
